@@ -33,4 +33,7 @@ TreeOut == [x \in 1..Len(tree) |-> [gid |-> tree[x].gid, pgid |-> IF tree[x].par
 Emit == (phase = "done") =>
           CSVWrite("%1$s", <<ToJson([universe |-> U, root |-> [name |-> "root", v |-> 4],
                                       model |-> [nodes |-> gnodes, edges |-> gedges, tree |-> TreeOut]])>>, OutFile)
+\* liveness on the model: under weak fairness of the step relation every run stops (checked in the quick configuration)
+Spec == Init /\ [][Next]_nrvars /\ WF_nrvars(Next)
+EventuallyStops == <>(phase = "done")
 =============================================================================
